@@ -38,6 +38,7 @@ type RenderSpec struct {
 	UsesEnv    bool              `json:"usesEnv,omitempty"`    // a template calls env/expandenv (must fail identically everywhere)
 	UsesDNS    bool              `json:"usesDNS,omitempty"`    // a template calls getHostByName
 	FilesProbe bool              `json:"filesProbe,omitempty"` // a template tries to read host files through .Files
+	Mutates    bool              `json:"mutates,omitempty"`    // a template writes into .Values with `set`: renders must not share one values map
 }
 
 const canaryToken = "VERIF-CANARY-7f3a9c"
@@ -247,7 +248,8 @@ func ExecuteC05(t *testing.T, plan *Plan) *RunResult {
 	// (b) concurrent renders: G engine renders on the SAME chart and values, and G dry-run installs on copies
 	if rs.G > 0 && base.Err == "" {
 		shared := BuildChart(&spec)
-		if err := chartutil.ProcessDependencies(shared, deepCopyMap(vals)); err == nil {
+		// (a chart that writes into .Values changes the map it is given; sharing that map between renders is the caller's mistake)
+		if err := chartutil.ProcessDependencies(shared, deepCopyMap(vals)); err == nil && !rs.Mutates {
 			caps := chartutil.DefaultCapabilities.Copy()
 			rv, err := chartutil.ToRenderValuesWithSchemaValidation(shared, deepCopyMap(vals), chartutil.ReleaseOptions{Name: "rel", Namespace: "ns1", Revision: 1, IsInstall: true}, caps, true)
 			if err == nil {
@@ -414,6 +416,20 @@ func genC05(seed, index uint64, tier string) *Plan {
 	if g.Chance(0.35) {
 		rs.FilesProbe = true
 		cs.RawFiles["templates/hostfiles.yaml"] = "apiVersion: v1\nkind: ConfigMap\nmetadata:\n  name: c05-hostfiles\ndata:\n  abs: {{ .Files.Get \"@CANARY_ABS@\" | quote }}\n  up: {{ .Files.Get \"../canary.json\" | quote }}\n  upup: {{ .Files.Get \"../../canary.json\" | quote }}\n  glob: {{ len (.Files.Glob \"/**\") | quote }}\n"
+	}
+	if g.Chance(0.35) {
+		// templates of one chart share .Values: the result depends on the execution order, which must be fixed
+		rs.Mutates = true
+		cs.RawFiles["templates/a-reader.yaml"] = "apiVersion: v1\nkind: ConfigMap\nmetadata:\n  name: c05-reader-a\ndata:\n  seen: {{ .Values.computed | default \"unset\" | quote }}\n"
+		cs.RawFiles["templates/m-writer.yaml"] = "{{- $_ := set .Values \"computed\" \"derived\" }}\napiVersion: v1\nkind: ConfigMap\nmetadata:\n  name: c05-writer\ndata:\n  wrote: \"yes\"\n"
+		cs.RawFiles["templates/z-reader.yaml"] = "apiVersion: v1\nkind: ConfigMap\nmetadata:\n  name: c05-reader-z\ndata:\n  seen: {{ .Values.computed | default \"unset\" | quote }}\n"
+		cs.RawFiles["templates/sub/q-reader.yaml"] = "apiVersion: v1\nkind: ConfigMap\nmetadata:\n  name: c05-reader-q\ndata:\n  seen: {{ .Values.computed | default \"unset\" | quote }}\n"
+	}
+	if g.Chance(0.08) {
+		// two templates fail: the reported error must always be the same one
+		cs.RawFiles["templates/fail-b.yaml"] = "{{ fail \"failure B\" }}\n"
+		cs.RawFiles["templates/fail-k.yaml"] = "{{ required \"failure K\" .Values.doesnotexist }}\n"
+		cs.RawFiles["templates/sub/fail-a.yaml"] = "{{ fail \"failure A\" }}\n"
 	}
 	if g.Chance(0.12) {
 		rs.UsesEnv = true
